@@ -2,6 +2,10 @@
 (`qhashmurmur3_32` returns 0 for nbytes == 0, which is also what the reference gives for seed 0)."""
 
 
+import functools
+
+
+@functools.lru_cache(maxsize=1 << 17)
 def murmur3_32(data: bytes) -> int:
     n = len(data)
     if n == 0:
